@@ -1,24 +1,23 @@
 (* C42 — The results cache never changes query results.
-   Model/C42.v mirrors results_cache.go / query_range.go with the two repairs of
-   repo_patches/C42-fix.patch (minTime over all series; partition continues on the
-   request's grid after a lower-step extent).
+   Model/C42.v mirrors results_cache.go / query_range.go with the two repairs that are now in
+   the repository (minTime over all series; partition continues on the request's grid after a
+   lower-step extent), and the chain step-align -> [split-by-interval ->] results cache.
 
-   Full statement wanted (kept visible; proved here only in part, the composition is
-   carried by the checked tie on generated histories):
-     forall f sids split qs, (all queries step-aligned, old enough, <= 12 pieces per merge) ->
-       history f sids split use_split [] qs = Some (rs, c) ->
-       rs = map (direct f sids) qs.
-   Proved (partial): the building blocks the cache composes, for every downstream f
-   (series may be absent anywhere), every sorted id list, every timestamp lists:
-   extraction of an exact piece is exact; merging an exact piece with an exact later,
-   overlapping-or-adjacent piece (per series and for whole responses through the
-   byFirstTime sort) is exact on the union — which is each step of the extent-merge
-   loop; in matching-step mode every downstream request starts on the request's grid.
-   Refuted for the code before the repairs: the first-series minTime loses samples,
-   the unaligned partition asks for off-grid timestamps. *)
+   Proved for the model, for every deterministic downstream f (series may be absent anywhere),
+   every sorted id list, every split interval, with or without the split middleware, and every
+   history of range queries with step > 0 and 0 <= start <= end — any mixture of steps, so the
+   lower-step cache path is included:
+     C42_history: every answer equals direct evaluation of the (step-aligned) query, the run
+     never fails, and the invariant "every cached extent is exact for its key" is preserved.
+   Building blocks: extraction, MergeResponse of any number of exact pieces in any order
+   (C42_merge_pieces_exact), partition cover (inside C42_do_cache_exact).
+   Refuted for the code before the repairs: the first-series minTime loses samples, the
+   unaligned partition asks for off-grid timestamps.
+   Model assumptions (not theorems): requests older than the freshness window, sort.Sort /
+   sort.Slice as stable insertion sort (Go: at most 12 elements), parallelism 1. *)
 From Coq Require Import ZArith List Bool Lia.
 Import ListNotations.
-From Verif Require Import Lib.Corr Gen.C41 Model.C41 Gen.C42 Model.C42 Proofs.C42.
+From Verif Require Import Lib.Corr Gen.C41 Model.C41 Gen.C42 Model.C42 Proofs.C42 Proofs.C42_history.
 Open Scope Z_scope.
 
 (* extractMatrix applied to a response that is exact on the timestamps ts is exact on the
@@ -62,6 +61,46 @@ Theorem C42_partition_on_grid : forall rs re st exts reqs cached, 0 < st ->
   forall ab, In ab reqs -> on_grid rs st (fst ab).
 Proof. exact partition_on_grid. Qed.
 Print Assumptions C42_partition_on_grid.
+
+(* ---- whole histories ---- *)
+
+(* MergeResponse (sort by minTime, then matrixMerge) of ANY number of exact pieces, given in ANY
+   order, whose timestamps are intervals of the step grid, is exact on their union: no overlap
+   or adjacency condition is needed *)
+Theorem C42_merge_pieces_exact : forall f sids, incr sids -> forall st tss ts, 0 < st ->
+  Forall (iv st) tss -> incr ts ->
+  (forall t, In t ts <-> exists ts', In ts' tss /\ In t ts') ->
+  merge_response (map (eval_on f sids) tss) = eval_on f sids ts.
+Proof. exact merge_pieces_exact. Qed.
+Print Assumptions C42_merge_pieces_exact.
+
+(* resultsCache.Do on a step-aligned request, in a cache whose extents are all exact: the
+   answer is direct evaluation and the new cache again holds only exact extents (hit, lower-step
+   hit and miss paths) *)
+Theorem C42_do_cache_exact : forall f sids, incr sids -> forall split c rs re st resp c',
+  0 < st -> (st | rs) -> (st | re) -> 0 <= rs -> rs <= re -> cache_ok f sids c ->
+  do_cache f sids split c rs re st = (resp, c') ->
+  resp = eval f sids rs re st /\ cache_ok f sids c'.
+Proof. exact do_cache_spec. Qed.
+Print Assumptions C42_do_cache_exact.
+
+(* any history, from any cache of exact extents: it runs to the end, every answer equals direct
+   evaluation, the invariant holds afterwards *)
+Theorem C42_history : forall f sids, incr sids -> forall split use_split, 0 < split -> forall qs c,
+  Forall query_ok qs -> cache_ok f sids c ->
+  exists rs c', history f sids split use_split c qs = Some (rs, c')
+    /\ rs = map (direct f sids) qs /\ cache_ok f sids c'.
+Proof. exact history_exact. Qed.
+Print Assumptions C42_history.
+
+(* the same from the empty cache, through the predicate the check evaluates on the
+   implementation's answers *)
+Theorem C42_history_pred : forall d split use_split qs,
+  incr (map fst d) -> 0 < split -> Forall query_ok qs ->
+  exists rs c, history (f_of d) (map fst d) split use_split [] qs = Some (rs, c)
+    /\ pred_ok (CHist split use_split d qs rs c) = true.
+Proof. exact history_pred. Qed.
+Print Assumptions C42_history_pred.
 
 (* ---- refutations of the code before the repairs (replayed on the real code: corpus/C42) ---- *)
 
@@ -114,6 +153,15 @@ Example C42_partition_nonvacuous :
   fst (partition 0 300000 60000 [(0, 90000, eval (f_of [(1, [(-1000000, 2000000)])]) [1] 0 90000 30000)])
   = [(60000, 300000)].
 Proof. vm_compute. reflexivity. Qed.
+
+(* the hypotheses of C42_history on a concrete mixed-step history (lower-step path included) *)
+Example C42_history_hyps_nonvacuous :
+  incr [0; 3] /\ Forall query_ok [(600000, 1200000, 30000); (0, 900000, 60000); (300001, 4200000, 60000)]
+  /\ cache_ok (f_of [(3, [(0, 9000000)])]) [0; 3] [].
+Proof.
+  split; [apply incrb_incr; vm_compute; reflexivity|]. split; [|apply cache_ok_empty].
+  repeat constructor; cbn; lia.
+Qed.
 
 (* a three-query history through step-align, split and cache answers every query exactly *)
 Example C42_history_nonvacuous :
